@@ -1,4 +1,6 @@
 import Cbor.Lemmas.CountsOps
+import Cbor.Lemmas.LoadSafe
+import Cbor.Lemmas.CopyFrame
 /-!
 # C06 — an allocation failure is reported cleanly and atomically
 
@@ -177,5 +179,34 @@ theorem set_atomic (ω : Oracle) (h : H) (a : Ref) (i : Nat) (x : Ref) (hf : (ar
           | some old => simp [hh] at hf
         · rfl
     | _ => rfl
+
+/-- **`cbor_load` under every refusal schedule**: whatever subset of its allocator requests is refused, the model of
+`cbor_load` trips no internal assertion and reports through its documented channel — an item with code NONE, or NULL
+with an error code. -/
+theorem C06_load_any_schedule (ω : Model.Oracle) (L : Nat) (r0 : Model.LoadResult) (src : Array UInt8) (hsz : src.size < 2 ^ 64 - 1) :
+    let o := Model.load ω L r0 src
+    o.fault = false ∧ ((∃ x, o.item = some x ∧ o.result.code = .none) ∨ (o.item = none ∧ o.result.code ≠ .none)) :=
+  Lemmas.Safe.load_safe ω L r0 src hsz
+
+/-- **`cbor_copy` under every refusal schedule** leaves its argument — and every other pre-existing item — exactly as
+it was (contents and reference counts), whether it succeeds or fails; and the reference-count books balance again
+afterwards (`Heap.copy_frame_all`, `Heap.copy_counts_all`). -/
+theorem C06_copy_any_schedule (ω : Oracle) (h : H) (own : Ref → Nat) (hc : Counts h own) (r : Ref) (c : Cell) (hg : h.get r = some c)
+    (hf : (h.copy ω r).2.fault = false) :
+    (∀ x, x < h.cells.length → (h.copy ω r).2.get x = h.get x) ∧
+    (match (h.copy ω r).1 with
+     | some r' => Counts (h.copy ω r).2 (bump own r' 1)
+     | none => Counts (h.copy ω r).2 own) := by
+  have hnd : ∀ p c, h.get p = some c → ∀ x ∈ c.node.children, x < h.cells.length := by
+    intro p cp hgp x hx
+    have hx' := hc x
+    cases hgx : h.get x with
+    | none =>
+      rw [hgx] at hx'
+      have h1 := count_children_le h p cp hgp x
+      have h2 : 0 < cp.node.children.count x := List.count_pos_iff.mpr hx
+      omega
+    | some cx => exact get_lt hgx
+  exact ⟨(copy_source_intact ω h r (get_lt hg) hnd).1, (copy_counts_all ω h.copyFuel).1 h r own hc hf⟩
 
 end Props.C06
